@@ -646,3 +646,30 @@ func verifPrefixDB(sc int, cacheSize int, warm bool) (*storage.RelationService, 
 	}
 	return verifOpenDB(cacheSize), db
 }
+
+
+// verifRealize stores the tables of a stub relation manager in a real database
+// (all columns INT: the cells are int32-range integers), flushes it and returns
+// a cold store on it: the same rows, now served by the real Fetch (catalog
+// lookup, page and row decoding) instead of the stub.
+func verifRealize(rm *verifRM, order []string) RelationManager {
+	rs := verifNewDB(0)
+	for _, name := range order {
+		t := rm.tables[name]
+		if t == nil {
+			continue
+		}
+		var cols []verifCol
+		for _, c := range t.cols {
+			cols = append(cols, verifCol{c, storage.TypeInt})
+		}
+		verifAssert(EvaluateCreateTable(verifCreateStmt(name, cols), rs) == nil, "real/create")
+		if len(t.rows) > 0 {
+			_, err := EvaluateInsert(verifInsertStmt(name, nil, t.rows), rs)
+			verifAssert(err == nil, "real/insert-ok")
+		}
+	}
+	verifAssert(storage.VerifFlush(rs) == nil, "real/flush-ok")
+	storage.VerifAbandon(rs)
+	return verifOpenDB(0)
+}
